@@ -704,23 +704,12 @@ func c20Eval(cs *Case, ctx *EvalCtx) []Violation {
 		}
 		fresh[i] = sg[0]
 		freshOK[i] = true
-		// the response is complete before the next line is read: everything the line
-		// prints by construction must be on stdout before the READ that delivers the
-		// marker line (the fresh session uses line-at-a-time delivery)
+		// what the line prints by construction belongs to ITS response: it must be on stdout
+		// before the marker line's output (when an implementation reads its input — line by
+		// line, ahead of time, all at once — is its own business)
 		if want, ok := c20Known[ax.Names[i]]; ok && want != "" {
-			var before strings.Builder
-			seenRead := false
-			for _, e := range o.Res.Events {
-				if e.Kind == "READ" && strings.Contains(e.Data, "#0#") {
-					seenRead = true
-					break
-				}
-				if e.Kind == "OUT" {
-					before.WriteString(e.Data)
-				}
-			}
-			if seenRead && !strings.Contains(before.String(), want) {
-				add(ax.FreshOf[i], "response-late", "line:"+ax.Names[i], fmt.Sprintf("line %q must have printed %q before the next line is read; stdout up to that read was %q", clip(ax.Lines[i]), clip(want), clip(before.String())))
+			if !strings.Contains(sg0.Out, want) {
+				add(ax.FreshOf[i], "response-late", "line:"+ax.Names[i], fmt.Sprintf("line %q must print %q as part of its own response; its response was %q", clip(ax.Lines[i]), clip(want), clip(sg0.Out)))
 			}
 		}
 	}
